@@ -60,6 +60,7 @@ class World:
         self.hostname = "simhost"
         self.probes = {}
         self.deliveries = []     # one record per command that reached a binding
+        self.flags = {}
         self.current_thread = None  # set by the scheduler (for event attribution)
         self.step_hook = None
 
@@ -336,7 +337,7 @@ def _deliver(transport, target, cdb, dataout, xfer_in, extra):
         datain = corrupt(datain, f, xfer_in)
         applied = "corrupt_datain"
     W.ev(transport + ".cmd", cdb=cdb, outlen=len(dataout), inlen=xfer_in, status=status,
-         senselen=len(sense or b""), datain_sha=hashlib.sha256(datain or b"").hexdigest()[:12],
+         senselen=len(sense or b""), sense_sha=hashlib.sha256(bytes(sense or b"")).hexdigest()[:12], datain_sha=hashlib.sha256(datain or b"").hexdigest()[:12],
          fault=applied, **extra)
     W.deliveries.append({"transport": transport, "status": status, "sense": bytes(sense or b""), "handed": bytes(sense or b""),
                          "cdb": bytes(cdb), "fault": applied, "outlen": len(dataout), "inlen": xfer_in,
@@ -522,7 +523,7 @@ def make_iscsi():
                 raise err
             task.status = status
             if status == 0x02:
-                task._sense = bytes(sense)
+                task._sense = bytearray(sense) if WORLD.flags.get("iscsi_sense_bytearray") else bytes(sense)
             if datain and data_in is not None:
                 n = min(len(datain), len(data_in), task.xferlen)
                 if n:
